@@ -308,6 +308,28 @@ func GenWorld(r *Run, o GenOpts) *World {
 		w.Files = append(w.Files, ref.Protected{Name: name, Data: data})
 		t.End()
 	}
+	if !o.Par1 {
+		// the PAR2 format allows at most 32768 input slices; stay well
+		// inside (growBig handles the deliberate large sets)
+		limit := 12000
+		if r.Thorough() {
+			limit = 30000
+		}
+		for {
+			n := 0
+			big := 0
+			for i, f := range w.Files {
+				n += (len(f.Data) + w.S - 1) / w.S
+				if len(f.Data) > len(w.Files[big].Data) {
+					big = i
+				}
+			}
+			if n <= limit {
+				break
+			}
+			w.Files[big].Data = w.Files[big].Data[:len(w.Files[big].Data)/2+1]
+		}
+	}
 	if o.Par1 {
 		// a PAR1 set needs at least one byte of data to have parity at all
 		nonEmpty := false
